@@ -62,9 +62,9 @@ func scenarioC20(c *Ctx) {
 		withJunk bool
 		forged   bool
 	}
-	cfgs := []cfg{{3, 2, false, true, false}, {2, 2, true, false, false}, {3, 2, false, false, true}}
+	cfgs := []cfg{{3, 2, false, true, false}, {2, 2, true, true, false}, {3, 2, false, false, true}}
 	if !c.Quick() {
-		cfgs = []cfg{{3, 2, false, true, false}, {2, 2, true, false, false}, {4, 3, false, true, false}, {3, 3, true, true, false}, {5, 2, false, false, false}, {3, 2, false, false, true}, {4, 2, true, false, true}}
+		cfgs = []cfg{{3, 2, false, true, false}, {2, 2, true, true, false}, {2, 2, true, false, false}, {4, 3, false, true, false}, {3, 3, true, true, false}, {5, 2, false, false, false}, {3, 2, false, false, true}, {4, 2, true, false, true}}
 	}
 	var sampleFile *ctypes.ReDKG
 	for ci, cf := range cfgs {
@@ -247,6 +247,14 @@ func startReinit(c *Ctx, A *Cluster, tag string, withJunk, adapt bool, forgedOpt
 		fm := storage.Message{DkgRoundID: log[0].DkgRoundID, Event: "event_sig_proposal_decline_by_participant",
 			Data: []byte(`{"ParticipantId":1,"CreatedAt":"2026-09-25T20:00:00Z"}`), SenderAddr: A.Users[1], Signature: []byte("garbage"), Offset: 1}
 		log = append(log[:1], append([]storage.Message{fm}, log[1:]...)...)
+	}
+	if adapt && withJunk {
+		// a deal of ANOTHER round in the name of the first participant lay on the board before the
+		// ceremony (every original node refused it): the adaptation must not spend that
+		// participant's self-confirmation on it
+		jd := storage.Message{DkgRoundID: "some-other-round", Event: "event_dkg_deal_confirm_received",
+			Data: []byte(`{"ParticipantId":0,"Deal":"AA==","CreatedAt":"2026-09-25T20:00:00Z"}`), SenderAddr: A.Users[0], RecipientAddr: A.Users[1], Signature: []byte("garbage")}
+		log = append([]storage.Message{jd}, log...)
 	}
 	if adapt {
 		var old []storage.Message
